@@ -17,8 +17,8 @@ def sh(cmd, cwd=None, timeout=3600):
 def main():
     prop, k = sys.argv[1], sys.argv[2]
     checks = sys.argv[3:]
-    src = f"/tmp/wt/out/{prop}/{k}"
-    dst = f"/verif/seeded/{prop}-{k}"
+    src = f"{os.environ.get('SEED_ROOT', '/tmp/wt/out')}/{prop}/{k}"
+    dst = f"/verif/seeded/{prop}-{os.environ.get('SEED_TAG', '')}{k}"
     patch = f"{src}/patch.diff"
     notes = open(f"{src}/notes.md").read() if os.path.exists(f"{src}/notes.md") else ""
     demos = [f for f in os.listdir(src) if f.endswith(".go")]
